@@ -28,12 +28,12 @@ BUDGET_EPS = 1e-13    # iteration budgets are chosen so that the theoretical tru
 PY = '/venv/bin/python'
 
 RULE = ('PageRank: exhaustive digraphs n<=3 (+ sampled n=4) and structured random weighted (di)graphs n<=10 with and '
-        'without sinks x damping {0,.25,.5,.85,.99} x restart {None, array, dict; weight on sinks / zero weights} x six '
+        'without sinks, directed cycles with sparse restarts, x damping {0,.25,.5,.85,.99} x restart {None, array, dict; weight on sinks / zero weights} x six '
         'solvers with budgets derived from the proved error bounds x OpenMP threads {1,16} for the compiled solvers; '
         'Katz / closeness / betweenness / HITS on exhaustive small graphs and structured graphs; '
         'a case is non-trivial when the graph has an edge and the expected scores are not all equal; '
         'distinct = distinct (entry point, graph, options)')
-ASSUMPTIONS = ['scipy bicgstab returns x with ||(I-A)x-b||_2 <= max(atol, 1e-5 ||b||_2) when info == 0 (monitored: contract line)',
+ASSUMPTIONS = ['the direct solver (scipy spsolve) that get_pagerank falls back to when BiCGSTAB\'s iterate fails the true-residual test is exact up to rounding (its output is compared with the exact vector at 1e-9/(1-a)); nothing is assumed of bicgstab itself: info, iterate and true residual are recorded, the accept / fall-back decision is a run line',
                'ARPACK eigs returns an eigenpair of the operator it was given (monitored: residual contract)',
                'scipy csr products / transposition / diags are the substrate of the float64 solvers',
                'float rounding is outside the theorems: float64 paths compared within 1e-9, float32 kernels within 2e-5 (DESIGN 8)',
@@ -173,6 +173,11 @@ def _do_job(job, mods):
                                    np.array(job['graph']['indptr'])), shape=tuple(job['shape']))
             h = mods['HITS']().fit(a)
             sv = h.solver
+            if min(job['shape']) == 1:
+                # single row / column: HITS takes the dense SVD (the sparse solvers need k < min(shape)); the same call here
+                left, sg, right = np.linalg.svd(a.toarray(), full_matrices=False)
+                return {'row': [float(x) for x in h.scores_row_], 'col': [float(x) for x in h.scores_col_],
+                        'u': [float(x) for x in left[:, 0]], 'v': [float(x) for x in right[0]], 'sigma': float(sg[0])}
             return {'row': [float(x) for x in h.scores_row_], 'col': [float(x) for x in h.scores_col_],
                     'u': [float(x) for x in sv.singular_vectors_left_.reshape(-1)],
                     'v': [float(x) for x in sv.singular_vectors_right_.reshape(-1)],
@@ -205,8 +210,16 @@ def _worker_main():
         x, info = real_bicgstab(A, b, *args, **kw)
         r = A.dot(x) - b
         rec.update({'solver': 'bicgstab', 'info': int(info), 'res2': float(np.linalg.norm(r)), 'b2': float(np.linalg.norm(b)),
-                    'atol': float(kw.get('atol', 0.0))})
+                    'atol': float(kw.get('atol', 0.0)), 'x': [float(v) for v in x]})
         return x, info
+
+    real_spsolve = ppr.spsolve
+
+    def spsolve_rec(A, b, *args, **kw):
+        x = real_spsolve(A, b, *args, **kw)
+        rec['direct'] = [float(v) for v in np.asarray(x).ravel()]
+        return x
+    ppr.spsolve = spsolve_rec
 
     def eigs_rec(A, *args, **kw):
         w, v = real_eigs(A, *args, **kw)
@@ -367,6 +380,9 @@ def pagerank_graphs(ctx):
     out.append(('explicit_zero', z))
     # duplicate stored entries (scipy sums them): 0 -> 1 stored twice with weights 1 and 2, plus 0 -> 2 and 1 -> 0
     out.append(('duplicate_entries', csr_of(raw_graph(3, [[(1, 1), (1, 2), (2, 1)], [(0, 1)], []]))))
+    # a sink whose row holds stored zeros only (the sink test of RandomSurferOperator is on the weights, not on the container)
+    out.append(('sink_stored_zero', csr_of(raw_graph(3, [[(1, 0)], [(0, 1), (2, 1)], [(1, 1)]]))))
+    out.append(('sink_stored_zeros4', csr_of(raw_graph(4, [[(1, 2), (3, 1)], [(0, 0), (2, 0)], [(1, 1)], [(3, 0)]]))))
     # beyond ncv = 20: ARPACK no longer spans the whole space (an Arnoldi iteration, not a direct solve)
     nbig = 26
     esb = [(i, (i + 1) % nbig) for i in range(nbig)] + [(i, rng.randrange(nbig)) for i in range(nbig) if rng.random() < 0.6]
@@ -415,6 +431,26 @@ def pagerank_plan(ctx):
                         tol = rng.choice([1e-6, 1e-4])
                     job = {'kind': 'pagerank', 'graph': g, 'damping': d, 'weights': w, 'solver': solver, 'n_iter': k, 'tol': tol}
                     plan.append({'job': job, 'check': 'spec', 'sink': has_sink, 'name': name})
+    # directed cycles with sparse restart vectors: BiCGSTAB (x0 = b) breaks down or stagnates there, and scipy may answer
+    # info = 0 with a true residual far above its stopping rule (get_pagerank has to notice)
+    for n in range(3, 10):
+        for _ in range(4 if quick else 24):
+            es = [(i, (i + 1) % n) for i in range(n)]
+            a = mk(n, es, None if rng.random() < 0.6 else [rng.choice(WEIGHT_CHOICES) for _ in es])
+            vals = [rng.choice([0, 0, 0, 0.5, 1, 2]) for _ in range(n)]
+            if sum(vals) == 0:
+                vals[rng.randrange(n)] = 1
+            if rng.random() < 0.3:
+                ks = [i for i in range(n) if vals[i] > 0]
+                w = {'kind': 'dict', 'keys': ks, 'vals': [float(vals[i]) for i in ks]}
+            else:
+                w = {'kind': 'arr', 'vals': [float(x) for x in vals]}
+            d = rng.choice([0.5, 0.5, 0.25, 0.85])
+            ctx.count('pagerank-graph:cycle-sparse-restart')
+            for solver in ('bicgstab', 'lanczos'):
+                job = {'kind': 'pagerank', 'graph': gdesc(a), 'damping': d, 'weights': w, 'solver': solver, 'n_iter': iters_for(d),
+                       'tol': rng.choice([1e-6, 1e-6, 0.0, 1e-8])}
+                plan.append({'job': job, 'check': 'spec', 'sink': False, 'name': 'cycle'})
     return plan
 
 
@@ -453,6 +489,12 @@ def restart_probs(g, w):
             v[k] = Fraction(x)
     s = sum(v)
     return [float(x / s) for x in v] if s > 0 else [float(x) for x in v]
+
+
+def truncated_degree(g):
+    """some node has stored entries whose weights sum to less than 1: push_pagerank's int32 degree is 0 there"""
+    ip, dt = g['indptr'], g['data']
+    return any(ip[i] < ip[i + 1] and 0 <= sum(dt[ip[i]:ip[i + 1]]) < 1 for i in range(g['n']))
 
 
 def close(model, impl, tol):
@@ -495,6 +537,7 @@ def eval_pagerank(ctx, plan, threads_compiled):
         a = job['damping']
         desc = dict(job)
         desc['threads'] = t
+        desc['check'] = p['check']          # what failed (spec line / run line): `replay` repeats exactly that
         if job['kind'] == 'diffusion':
             sig = {'entry': 'diffusion', 'threads': t}
             if 'err' in r:
@@ -510,18 +553,25 @@ def eval_pagerank(ctx, plan, threads_compiled):
         sig = {'entry': 'PageRank', 'solver': solver}
         if t != 1 and solver in COMPILED:
             sig['threads'] = t
-        if solver == 'lanczos':
-            sig['n_le_2'] = g['n'] <= 2     # ARPACK needs k < n - 1 (known finding F-lanczos-small)
         if 'err' in r:
             # every planned input is valid: an exception is a failure of the property on this input
+            sig['failure'] = r['err']            # findings are recorded per kind of failure, a new kind is reported
             if solver == 'push':
-                sig['failure'] = r['err']        # F-push is recorded per kind of failure, a new kind is reported
+                # F-push-zerodiv is the division by an out-weight that int32 truncates to 0, nothing else
+                sig['truncated_degree'] = truncated_degree(g)
             ctx.spec_fail(sig, desc, {'impl': 'err ' + r['err'], 'msg': r.get('msg')})
             ctx.case(('pr', gtok, wtok, a, solver, t), True)
             continue
         if p['check'] == 'spec':
             con = r.get('contract') or {}
             eps_override = None
+            if solver == 'lanczos' and not con and g['n'] < 3:
+                # ARPACK cannot be called below 3 nodes: get_pagerank takes the eigenvector from a dense decomposition (direct)
+                ctx.count('lanczos:dense-below-3-nodes')
+                eps_override = 10 * F64_TOL / (1 - a)
+            elif solver in ('bicgstab', 'lanczos') and not con:
+                from vlib.core import ToolFailure
+                raise ToolFailure('the %s recorder was not hit: the call of the external solver is not observed any more' % solver)
             if solver == 'bicgstab' and con:
                 if con.get('info') != 0:
                     # BiCGSTAB broke down / did not converge.  get_pagerank must not hand the partial iterate to the caller:
@@ -532,11 +582,22 @@ def eval_pagerank(ctx, plan, threads_compiled):
                 else:
                     ok = con['res2'] <= max(con['atol'], 1e-5 * con['b2']) * 1.0001 + 1e-300
                     ctx.count('contract:bicgstab:' + ('met' if ok else 'unmet'))
-                    rate['bicgstab'][0 if ok else 1] += 1
                     if not ok:
-                        ctx.note('bicgstab answered info=0 with a residual above its own stopping rule (res=%.3g): '
-                                 'contract of the external solver unmet, case checked through the other solvers only' % con['res2'])
-                        continue
+                        # scipy answers info = 0 from its recursively updated residual while the true residual is above the
+                        # stopping rule: get_pagerank must notice (true-residual test) and solve directly; whatever it returns
+                        # is compared with the exact vector like any other output -- never skipped
+                        ctx.count('bicgstab:info=0:residual-above-rule')
+                        sig['info'] = 0
+                        sig['residual'] = 'above-rule'
+                        eps_override = F64_TOL / (1 - a)
+                    else:
+                        # bicgstab_checked: ||r||_1 <= sqrt(n) ||r||_2 =: e < (1-a)^2  =>  within 2e/((1-a)^2 - e); the residual
+                        # is the one measured on what scipy returned (the code may also have fallen back: closer still)
+                        e = math.sqrt(g['n']) * con['res2']
+                        if e >= 0.5 * (1 - a) ** 2:
+                            ctx.count('pagerank-spec:bicgstab:tolerance-insufficient')   # caller's tol too loose for a bound
+                            continue
+                        eps_override = F64_TOL + 2 * e / ((1 - a) ** 2 - e)
             if solver == 'lanczos' and con:
                 # lanczos_residual_contract: an output of sum 1 moved by r (l1) by the operator is within r/(1-a) of PageRank;
                 # ARPACK is expected to return an eigenpair (residual 1e-6 on the normalised output), else: external, skipped
@@ -556,6 +617,12 @@ def eval_pagerank(ctx, plan, threads_compiled):
                 continue
             lines.append('c04.spec_pr %s %s %s %s %s' % (gtok, enc_rat(a), wtok, enc_ratlist(x), enc_rat(eps)))
             meta.append(('spec', p, t, r, sig, desc))
+            if solver == 'bicgstab' and 'x' in con:
+                # run line of the branch: the acceptance test of get_pagerank on what BiCGSTAB returned, the direct solution else
+                rule = max(con['atol'], 1e-5 * con['b2'])
+                lines.append('c04.bicgstab %s %s %s %d %s %s %s' % (gtok, enc_rat(a), wtok, con['info'], enc_rat(rule),
+                                                                    enc_ratlist(con['x']), enc_ratlist(con.get('direct') or [])))
+                meta.append(('bicg', p, t, r, dict(sig, line='run'), desc))
         else:
             k = job['n_iter']
             if solver == 'piteration':
@@ -568,7 +635,7 @@ def eval_pagerank(ctx, plan, threads_compiled):
                                                            enc_rat(float(np.float32(job['tol'])))))
             meta.append(('run', p, t, r, sig, desc))
     # a contract of an external solver that is unmet more than occasionally is not an assumption any more: reported
-    for sv, (met, unmet) in rate.items():
+    for sv, (met, unmet) in sorted(rate.items()):
         if unmet > max(2, 0.02 * (met + unmet)):
             ctx.spec_fail({'entry': 'PageRank', 'solver': sv, 'contract': 'unmet-rate'}, {'met': met, 'unmet': unmet},
                           {'detail': 'contract of the external solver unmet on %d of %d calls: these outputs were not compared' % (unmet, met + unmet)})
@@ -617,6 +684,24 @@ def eval_pagerank(ctx, plan, threads_compiled):
                     ctx.count('tie-skipped:stop-test')
                     continue
                 ctx.disagree(sig, desc, [float(m) for m in model], r['scores'], line)
+        elif kind == 'bicg':
+            con = r['contract']
+            ctx.case(('bicg', line), nontrivial, sample={'request': line[:400], 'model': ans[:300], 'impl': r['scores']})
+            ctx.count('pagerank-run:bicgstab')
+            if not ans.startswith('ok '):
+                ctx.disagree(sig, desc, ans, r['scores'], line)
+                continue
+            toks = ans.split(' ')
+            model, margin, accepted = dec_ratlist(toks[1]), float(Fraction(toks[2])), toks[3] == '1'
+            rule = max(con['atol'], 1e-5 * con['b2'])
+            tie = margin <= 1e-6 * rule * rule          # the true residual within rounding of the rule
+            ctx.count('bicgstab:' + ('iterate-accepted' if accepted else 'direct-solve'))
+            if accepted == ('direct' in con) or not close(model, r['scores'], F64_TOL):
+                if tie:
+                    ctx.count('tie-skipped:bicgstab-rule')
+                    continue
+                ctx.disagree(sig, desc, {'accepted': accepted, 'scores': [float(m) for m in model]},
+                             {'direct_solve_called': 'direct' in con, 'scores': r['scores']}, line)
         else:  # diffusion kernel, bit patterns
             key = ('diff', line)
             ctx.case(key, nontrivial, sample={'request': line[:400], 'model': ans[:300], 'impl': r['scores']})
@@ -721,6 +806,12 @@ def degenerate_graphs(rng):
     out.append(('asym_weights4', raw_graph(4, [[(1, rng.choice([2, 3])), (2, 1)], [(0, 1), (3, 4)], [(0, 7), (3, 1)], [(1, 1), (2, 2)]]), True))
     # directed with a stored zero closing a cycle
     out.append(('directed_stored_zero', raw_graph(3, [[(1, 1)], [(2, 1)], [(0, 0), (1, 1)]]), False))
+    # connected by stored zeros only: the guards (check_connected) are about the graph of the non-zero entries -> ValueError
+    out.append(('stored_zero_bridge', raw_graph(3, [[(1, 1)], [(0, 1), (2, 0)], [(1, 0)]]), True))
+    out.append(('only_stored_zeros', raw_graph(2, [[(1, 0)], [(0, 0)]]), True))
+    out.append(('directed_stored_zero_bridge', raw_graph(3, [[(1, 2)], [(2, 0)], []]), False))
+    # a single node carrying a stored zero: not empty for check_format, connected, no path to count
+    out.append(('one_node_stored_zero', raw_graph(1, [[(0, 0)]]), True))
     return out
 
 
@@ -795,6 +886,21 @@ def other_plan(ctx):
     g4d = [es for es in g4c if not is_symmetric_edges(es)]
     for es in rng.sample(g4d, 12 if quick else 300):
         plan.append({'kind': 'betweenness', 'graph': gdesc(mk(4, es)), 'directed': True})
+    # larger directed graphs (5..8 nodes): a random arborescence-like skeleton plus random arcs, random weights
+    for _ in range(10 if quick else 120):
+        n = rng.randint(5, 8)
+        es = set()
+        for v in range(1, n):
+            u = rng.randrange(v)
+            es.add((u, v) if rng.random() < 0.6 else (v, u))
+        for _k in range(rng.randint(0, 2 * n)):
+            u, v = rng.randrange(n), rng.randrange(n)
+            if u != v:
+                es.add((u, v))
+        es = sorted(es)
+        a = mk(n, es, [rng.choice(WEIGHT_CHOICES) for _ in es])
+        plan.append({'kind': 'betweenness', 'graph': gdesc(a), 'directed': not is_symmetric_edges(es)})
+        plan.append({'kind': 'closeness', 'graph': gdesc(a)})
     # ---- restart weights -> distribution (get_adjacency_values, which='probs'), including the refusals
     for n, es in rng.sample(kg, min(len(kg), 40 if quick else 300)):
         a = mk(n, es)
@@ -818,8 +924,10 @@ def other_plan(ctx):
             plan.append({'kind': 'push', 'graph': gdesc(a), 'damping': rng.choice([0.5, 0.75, 0.25, 0.875]), 'weights': w,
                          'tol': rng.choice([0.125, 0.015625, 0.0009765625])})
     # ---- HITS: small rectangular and square non-negative matrices
-    for _ in range(40 if quick else 400):
+    for it in range(40 if quick else 400):
         nr, nc = rng.randint(2, 6), rng.randint(2, 6)
+        if it % 10 == 0:
+            nr, nc = rng.choice([(1, rng.randint(1, 5)), (rng.randint(1, 5), 1), (1, 1)])    # a single row / column
         if rng.random() < 0.35:
             # very sparse, distinct weights, null rows / columns: the leading singular vectors have exact zeros, where
             # the SVD solver leaves round-off noise of either sign
@@ -1093,9 +1201,10 @@ def search(ctx, pending):
 def replay(ctx, payload):
     case = payload.get('case') or {}
     if case.get('kind') in ('pagerank', 'diffusion'):
-        job = {k: v for k, v in case.items() if k != 'threads'}
+        job = {k: v for k, v in case.items() if k not in ('threads', 'check')}
         t = case.get('threads', 1)
-        check = 'spec' if (job['kind'] == 'pagerank' and job['n_iter'] >= iters_for(job['damping'])) else 'run'
+        check = case.get('check') or (
+            'spec' if (job['kind'] == 'pagerank' and job['n_iter'] >= iters_for(job['damping'])) else 'run')
         eval_pagerank(ctx, [{'job': job, 'check': check, 'name': 'replay'}], [t])
     elif case.get('kind') in ('katz', 'closeness', 'betweenness', 'hits', 'values', 'push'):
         eval_other(ctx, [case])
